@@ -245,6 +245,16 @@ theorem U19_blank (cx : Ctx) (h : NumIs cx Unparse.noPrec) (hc : ClearOK cx.w) (
   · intro e he; rw [hl e he]; exact hb.2.1 e he
   · intro e he; rw [hl e he]; exact hb.2.2 e he
 
+/-- `format` in the two models: when the text parses (to entries with years ≤ 9999 — true of every parsed date), what
+`Unparse.format` returns is what `Print.formatOptionsFormat` (the loop of `FormatOptions::format`, `recursive = false`) has
+written, and that one returns no error -/
+theorem format_agree {ε : Type} (cx : Ctx) (h : NumIs cx Unparse.noPrec) (hc : ClearOK cx.w) (text : List Char)
+    (es : List Entry) (hp : Parse.parseEntries text = .ok es) (hd : ∀ e ∈ es, datesOK e = true) :
+    Unparse.format (strWidth cx.w) text = .ok (formatOptionsFormat (ε := ε) cx false (es.map .ok)).1
+    ∧ (formatOptionsFormat (ε := ε) cx false (es.map .ok)).2 = none := by
+  have hw := (format_writes_prefix (ε := ε) cx es).1
+  simp [Unparse.format, hp, Outcome.map', formatOptionsFormat, hw, formatEntries_agree cx h hc es hd]
+
 /-! ## for the width functions in use -/
 
 /-- C19_column for the text of the C05 round trip at the real width table: the numeric part of the amount ends in
@@ -297,7 +307,7 @@ private def tEx : Transaction :=
 example : Unparse.printPosting w0 pAmt
     = "    Assets:Bank                               123.45 USD\n    ; k: v\n".toList := by decide +kernel
 example : Unparse.printPosting w0 pWide
-    = "    ! 資産:銀行                                   5 USD [2020/01/02] @ 0.3 USD = 7 USD\n".toList := by decide +kernel
+    = "    ! 資産:銀行                                    5 USD [2020/01/02] @ 0.3 USD = 7 USD\n".toList := by decide +kernel
 example : Unparse.printPosting w0 pBal
     = "    Account                                              = 1 USD\n".toList := by decide +kernel
 example : NumIs cx0 Unparse.noPrec ∧ LayoutW cx0.w := ⟨std_numIs _, layoutW_widthCjk⟩
